@@ -144,6 +144,11 @@ def format_sint(x, spec):
     lo, hi = x.bounds()
     if hi is None:
         raise Unmodelled("formatting an unbounded symbolic int")
+    if hi - lo <= 12:
+        # small domains (months, weekdays, hours of a table...) are forked to concrete text, so that code comparing
+        # rendered strings natively (e.g. dt.format("%Y-%M") == check) sees real digits
+        v = x.concretize()
+        return format(-v if neg else v, spec)
     nmin, nmax = _ndigits(max(lo, 0)), _ndigits(hi)
     w = width - (1 if neg else 0)
     if zero and w >= nmax:
